@@ -1,4 +1,40 @@
-import AioModel.C15
-import AioModel.C15Static
+import AioProps.C15Lemmas
+/-!
+# C15 — property theorems (static files: confinement and exact ranges)
+
+Models: `AioModel/C15.lean` (= `BaseRequest.http_range`, `FileResponse._make_response`,
+`_prepare_open_file`, `_sendfile_fallback`) and `AioModel/C15Static.lean`
+(= `StaticResource.resolve/_handle/_resolve_path_to_response`, `FileResponse` file selection,
+over an abstract file system).  Every statement quantifies over all header strings, all file
+contents and sizes, all chunk sizes, all file systems `fs : Fs` and all request file names.
+-/
 namespace Aio.C15
+open Aio
+
+/-! ## Part 1 — ranges -/
+
+/-- The regular expression literal found in `BaseRequest.http_range` *now* (re-extracted on
+every run) is the one `matchRange` transcribes, and it is applied with `re.ASCII`. -/
+theorem range_pattern_is_modelled :
+    Gen.C15.rangePattern = "^bytes=(\\d*)-(\\d*)$".toList.map Char.toNat ∧
+    Gen.C15.rangeAsciiFlag = true := by decide
+
+/-- `http_range` refines the RFC 9110 §14.1.1 grammar: a well-formed single byte range whose
+numbers `int()` accepts is turned into exactly its slice. -/
+theorem httpRange_refines_spec (s : Str) (sp : RangeSpec) (hlen : s.length ≤ Gen.C15.maxStrDigits)
+    (hnl : s.getLast? ≠ some 10) (h : parseSpec s = some sp) :
+    httpRange (some s) = .ok (sliceOf sp) := by
+  rw [httpRange_eq_spec s hnl hlen, h]
+
+/-- … and everything the grammar does not derive is refused with `ValueError` (which
+`_prepare_open_file` turns into 416).  (A value ending in `\n` is excluded: Python's `$` would
+match before it; header values cannot contain a newline.) -/
+theorem httpRange_rejects_malformed (s : Str) (hlen : s.length ≤ Gen.C15.maxStrDigits)
+    (hnl : s.getLast? ≠ some 10) (h : parseSpec s = none) :
+    httpRange (some s) = .error () := by
+  rw [httpRange_eq_spec s hnl hlen, h]
+
+example : parseSpec (ascii "bytes=2-4" |>.map (·.toNat)) = some (.fromTo 2 4) := by decide
+example : parseSpec (ascii "bytes=2-4,6-7" |>.map (·.toNat)) = none := by decide
+
 end Aio.C15
